@@ -229,14 +229,21 @@ def probe_dirty(parser, matcher):
 class Alone:
     """Results of operations on brand-new instances with nothing else in flight (cached)."""
 
+    MAX_ENTRIES = 6000  # generated documents are unique: the cache is emptied when it grows past this
+
     def __init__(self):
         self.cache = {}
         self.computed = 0
+
+    def _room(self):
+        if len(self.cache) > self.MAX_ENTRIES:
+            self.cache.clear()
 
     def parse(self, text, ms, bkind, first, srcclass):
         key = ("p", text, canon(ms), "ast" if bkind in ("ast", "astd") else bkind, bool(first), srcclass)
         r = self.cache.get(key)
         if r is None:
+            self._room()
             r = self.cache[key] = self._parse(text, ms, bkind, first, srcclass)
         return r
 
@@ -252,13 +259,13 @@ class Alone:
             parser = make_parser({"b": "ast" if bkind in ("ast", "astd") else bkind, "g": 0}, gens)
             matcher = make_matcher(ms)
             rec = run_parse(env.main_ctx, parser, matcher, text, first, "path" if srcclass == "path" else "scanner", "/simfs/alone/doc.feature")
-            rec["gens"] = gens
         return rec
 
     def compile(self, text, ms, uri, srcclass="text"):
         key = ("c", text, canon(ms), uri, srcclass)
         r = self.cache.get(key)
         if r is None:
+            self._room()
             self.computed += 1
             env = seams.RunEnv()
             env.fs.no_collision = srcclass != "path"
